@@ -46,6 +46,122 @@ struct ConcCase {
     progs: Vec<Prog>,
 }
 
+// ---------------------------------------------------------------------------------------------
+// Deadlock watch. Every concurrent execution is a group of worker threads. A worker that is blocked for
+// good sits in interruptible sleep and uses no CPU time; a worker that is merely starved of CPU is
+// runnable. If every unfinished worker of a complete group has been asleep without using any CPU time
+// for 25 seconds, no worker can wake another one up any more (the harness's own barriers and channels
+// cannot produce that: every worker sends before it receives) - the engine has blocked them. That is
+// reported as a violation with the case; mere slowness never is.
+// ---------------------------------------------------------------------------------------------
+mod watch {
+    use std::sync::Mutex;
+    pub struct Group {
+        pub id: u64,
+        pub expected: usize,
+        pub case: String,
+        pub what: &'static str,
+        pub members: Vec<(i64, bool)>,
+    }
+    pub static GROUPS: Mutex<Vec<Group>> = Mutex::new(Vec::new());
+    static NEXT: std::sync::atomic::AtomicU64 = std::sync::atomic::AtomicU64::new(1);
+    thread_local! {
+        pub static CURRENT_CASE: std::cell::RefCell<String> = const { std::cell::RefCell::new(String::new()) };
+    }
+    pub fn new_group(expected: usize, what: &'static str) -> u64 {
+        let id = NEXT.fetch_add(1, std::sync::atomic::Ordering::SeqCst);
+        let case = CURRENT_CASE.with(|c| c.borrow().clone());
+        GROUPS.lock().unwrap().push(Group { id, expected, case, what, members: vec![] });
+        id
+    }
+    pub fn close(id: u64) {
+        GROUPS.lock().unwrap().retain(|g| g.id != id);
+    }
+    fn my_tid() -> i64 {
+        std::fs::read_link("/proc/thread-self").ok().and_then(|p| p.file_name().and_then(|f| f.to_str().and_then(|s| s.parse().ok()))).unwrap_or(-1)
+    }
+    pub struct Member(u64, i64);
+    pub fn enter(id: u64) -> Member {
+        let tid = my_tid();
+        if let Some(g) = GROUPS.lock().unwrap().iter_mut().find(|g| g.id == id) {
+            g.members.push((tid, false));
+        }
+        Member(id, tid)
+    }
+    impl Drop for Member {
+        fn drop(&mut self) {
+            if let Ok(mut gs) = GROUPS.lock() {
+                if let Some(g) = gs.iter_mut().find(|g| g.id == self.0) {
+                    for m in g.members.iter_mut() {
+                        if m.0 == self.1 {
+                            m.1 = true;
+                        }
+                    }
+                }
+            }
+        }
+    }
+    /// (state letter, utime + stime) of a thread of this process
+    fn stat(tid: i64) -> Option<(char, u64)> {
+        let t = std::fs::read_to_string(format!("/proc/self/task/{}/stat", tid)).ok()?;
+        let rest = &t[t.rfind(')')? + 2..];
+        let f: Vec<&str> = rest.split(' ').collect();
+        Some((f.first()?.chars().next()?, f.get(11)?.parse::<u64>().ok()? + f.get(12)?.parse::<u64>().ok()?))
+    }
+    pub fn start(exit_code: i32) {
+        std::thread::spawn(move || {
+            let mut seen: std::collections::HashMap<i64, (u64, u32)> = std::collections::HashMap::new();
+            loop {
+                std::thread::sleep(std::time::Duration::from_secs(1));
+                let mut verdict: Option<(String, &'static str, usize, usize)> = None;
+                {
+                    let gs = GROUPS.lock().unwrap();
+                    for g in gs.iter() {
+                        if g.members.len() < g.expected {
+                            continue;
+                        }
+                        let open: Vec<i64> = g.members.iter().filter(|m| !m.1).map(|m| m.0).collect();
+                        if open.is_empty() || open.iter().any(|t| *t < 0) {
+                            continue;
+                        }
+                        let mut all_stuck = true;
+                        for &t in open.iter() {
+                            match stat(t) {
+                                Some(('S', cpu)) => {
+                                    let e = seen.entry(t).or_insert((cpu, 0));
+                                    if e.0 == cpu {
+                                        e.1 += 1;
+                                    } else {
+                                        *e = (cpu, 0);
+                                    }
+                                    if e.1 < 25 {
+                                        all_stuck = false;
+                                    }
+                                }
+                                Some((_, cpu)) => {
+                                    seen.insert(t, (cpu, 0));
+                                    all_stuck = false;
+                                }
+                                None => all_stuck = false,
+                            }
+                        }
+                        if all_stuck {
+                            verdict = Some((g.case.clone(), g.what, open.len(), g.expected));
+                            break;
+                        }
+                    }
+                }
+                if let Some((case, what, open, expected)) = verdict {
+                    println!("DEADLOCK {}", serde_json::json!({"what": what, "blocked": open, "threads": expected, "case": serde_json::from_str::<serde_json::Value>(&case).unwrap_or(serde_json::Value::Null)}));
+                    use std::io::Write;
+                    let _ = std::io::stdout().flush();
+                    std::process::exit(exit_code);
+                }
+            }
+        });
+    }
+}
+
 fn op() -> impl Strategy<Value = Op> {
     prop_oneof![
         3 => Just(Op::Expand(1)),
@@ -217,6 +333,7 @@ fn execute(root: &Arc<GameState>, progs: &[Prog], concurrent: bool) -> Vec<(u64,
         return ts.into_iter().map(|t| (t.h, t.items)).collect();
     }
     let barrier = Arc::new(Barrier::new(n));
+    let gid = watch::new_group(n, "programs");
     let mut txs = vec![];
     let mut rxs = vec![];
     for _ in 0..n {
@@ -232,6 +349,7 @@ fn execute(root: &Arc<GameState>, progs: &[Prog], concurrent: bool) -> Vec<(u64,
         let tx = txs[(i + 1) % n].take().unwrap(); // thread i sends to thread i+1
         let rx = rxs[i].take().unwrap();
         handles.push(std::thread::spawn(move || {
+            let _member = watch::enter(gid);
             let mut t = Transcript::default();
             let mut cur = (*root).clone();
             barrier.wait();
@@ -247,7 +365,9 @@ fn execute(root: &Arc<GameState>, progs: &[Prog], concurrent: bool) -> Vec<(u64,
             (t.h, t.items)
         }));
     }
-    handles.into_iter().map(|h| h.join().unwrap_or((0xdead, 0))).collect()
+    let out = handles.into_iter().map(|h| h.join().unwrap_or((0xdead, 0))).collect();
+    watch::close(gid);
+    out
 }
 
 
@@ -328,6 +448,7 @@ fn exchange(root: &Arc<GameState>, sels: &[Vec<u16>], rounds: usize, concurrent:
         return ts.into_iter().map(|t| (t.h, t.items)).collect();
     }
     let barrier = Arc::new(Barrier::new(n));
+    let gid = watch::new_group(n, "exchange scenario");
     let board: Arc<Mutex<Vec<Option<GameState>>>> = Arc::new(Mutex::new(vec![None; n]));
     let hs: Vec<_> = (0..n)
         .map(|i| {
@@ -336,6 +457,7 @@ fn exchange(root: &Arc<GameState>, sels: &[Vec<u16>], rounds: usize, concurrent:
             let board = board.clone();
             let my = sels[i].clone();
             std::thread::spawn(move || {
+                let _member = watch::enter(gid);
                 let mut t = Transcript::default();
                 let mut state = (*root).clone();
                 let mut pos = 0usize;
@@ -358,7 +480,9 @@ fn exchange(root: &Arc<GameState>, sels: &[Vec<u16>], rounds: usize, concurrent:
             })
         })
         .collect();
-    hs.into_iter().map(|h| h.join().unwrap_or((0xdead, 0))).collect()
+    let out = hs.into_iter().map(|h| h.join().unwrap_or((0xdead, 0))).collect();
+    watch::close(gid);
+    out
 }
 
 // ---------------------------------------------------------------------------------------------
@@ -462,17 +586,21 @@ fn siblings_run(root: &GameState, paths: &[Vec<Action>], reps: usize, concurrent
         return states.iter().map(|g| work(g)).collect();
     }
     let barrier = Arc::new(Barrier::new(states.len()));
+    let gid = watch::new_group(states.len(), "sibling scenario");
     let hs: Vec<_> = states
         .into_iter()
         .map(|g| {
             let barrier = barrier.clone();
             std::thread::spawn(move || {
+                let _member = watch::enter(gid);
                 barrier.wait();
                 work(&g)
             })
         })
         .collect();
-    hs.into_iter().map(|h| h.join().unwrap_or((0xdead, 0))).collect()
+    let out = hs.into_iter().map(|h| h.join().unwrap_or((0xdead, 0))).collect();
+    watch::close(gid);
+    out
 }
 
 fn check_case(c: &ConcCase, st: &mut Stats) -> Check {
@@ -497,6 +625,15 @@ fn check_parts(start: &gen::Start, actions: &[Action], progs: &[Prog], aux: u64,
         progs: &'a [Prog],
     }
     let c = &C { game: G { start, aux }, progs };
+    watch::CURRENT_CASE.with(|cc| {
+        *cc.borrow_mut() = json!({
+            "start": drive::start_json(start),
+            "actions": actions.iter().map(action_text).collect::<Vec<_>>(),
+            "programs": progs.iter().map(prog_json).collect::<Vec<_>>(),
+            "aux": aux,
+        })
+        .to_string()
+    });
     let mk = || fresh_root(c.game.start, actions).map(Arc::new);
     let root = match mk() {
         Some(r) => r,
@@ -737,11 +874,13 @@ fn main() {
     install_hook();
     let args: Vec<String> = std::env::args().collect();
     if args.len() >= 3 && args[1] == "replay" {
+        watch::start(1);
         std::process::exit(replay(&args[2]));
     }
     if args.len() >= 3 && args[1] == "firstuse" {
         std::process::exit(firstuse(&args[2]));
     }
+    watch::start(3);
     let seed: u64 = args[2].parse().unwrap();
     let cases: u32 = args[3].parse().unwrap();
     let shards: usize = args[4].parse().unwrap();
